@@ -109,7 +109,7 @@ CLAIMS = {
             "outcome is acceptance or one of the allowed spec errors (mutual induction on fuel over the five parsers; guards read from the "
             "source), KeyError only for a missing path / condition, plus ten families of definite errors rejected.",
             "DESIGN.md section 7 C19"),
-    "C20": ("23 theorems (ValidaProofs/C20.lean, C20TypeFmt.lean): the formatter of type-like conditions (model Valida.TypeFmt) returns a text "
+    "C20": ("43 theorems (ValidaProofs/C20.lean, C20TypeFmt.lean, C20Tree.lean): headline `C20_tree` - for a prefix-closed schema with one rule per path the flat tree is produced without error, every rule appears exactly once at its own path with its display path, every node's parent is -1 or an earlier node that is its path prefix, the nested form has the same nodes, and a key node is required / optional / unflagged exactly according to the always-applicable required_keys / allowed_keys conditions that name it (`C20_tree_required_iff`, without any hypothesis on the schema); `C20_tree_total_iff` gives the exact condition for totality; sub-tree roots (`C20_subtree_*`). the formatter of type-like conditions (model Valida.TypeFmt) returns a text "
             "for every non-empty list of type / length / membership conditions of the domain, names the library's types, joins with ', '; parents precede and are path prefixes, totality for prefix-closed keys, each rule's node "
             "carries it, keys unique, a key named by an always-applicable required_keys is flagged required whatever else names it, conditions "
             "under or / xor flag nothing, flat and nested forms have the same nodes; HTML: html.escape leaves no < > quote, the back-tick "
